@@ -74,6 +74,14 @@ type scObs struct {
 	Proc   int64
 	Idle   *int64
 	OK     bool
+	// GET /api/v1/shard/samples/?with_metrics_detail=true, read twice
+	Samples       []scSampObs
+	SamplesStable bool
+}
+
+type scSampObs struct {
+	Job                                  uint64
+	Scraped, KeepS, KeepT, DropS, DropT int64
 }
 
 type scriptedRT struct {
@@ -237,6 +245,32 @@ func (w *scWorld) observe(ok bool) scObs {
 		ob.Status = append(ob.Status, so)
 	}
 	sort.Slice(ob.Status, func(a, b int) bool { return ob.Status[a].Hash < ob.Status[b].Hash })
+	readSamples := func() []scSampObs {
+		res := map[string]*scrape.StatisticsSeriesResult{}
+		if err := w.get("/api/v1/shard/samples/?with_metrics_detail=true", &res); err != nil {
+			panic(err)
+		}
+		out := []scSampObs{}
+		for job, r := range res {
+			so := scSampObs{Scraped: int64(r.ScrapedTotal)}
+			fmt.Sscanf(job, "job%d", &so.Job)
+			for name, m := range r.MetricsTotal {
+				switch name {
+				case "keepme":
+					so.KeepS, so.KeepT = int64(m.Scraped), int64(m.Total)
+				case "dropme":
+					so.DropS, so.DropT = int64(m.Scraped), int64(m.Total)
+				default: // a metric the payloads do not contain: make it visible
+					so.DropS = -1
+				}
+			}
+			out = append(out, so)
+		}
+		sort.Slice(out, func(a, b int) bool { return out[a].Job < out[b].Job })
+		return out
+	}
+	ob.Samples = readSamples()
+	ob.SamplesStable = fmt.Sprint(readSamples()) == fmt.Sprint(ob.Samples)
 	return ob
 }
 
@@ -343,7 +377,13 @@ func scObsTerm(o scObs) string {
 	if o.Idle != nil {
 		idle = "(Some " + cZ(*o.Idle) + ")"
 	}
-	return fmt.Sprintf("{| so_status := %s; so_head := %s; so_proc := %s; so_idle := %s; so_ok := %s |}", cList(st), cZ(o.Head), cZ(o.Proc), idle, cBool(o.OK))
+	var sm []string
+	for _, m := range o.Samples {
+		sm = append(sm, fmt.Sprintf("{| sm_job := %s; sm_scraped := %s; sm_keep := (%s, %s); sm_drop := (%s, %s) |}",
+			cN(m.Job), cZ(m.Scraped), cZ(m.KeepS), cZ(m.KeepT), cZ(m.DropS), cZ(m.DropT)))
+	}
+	return fmt.Sprintf("{| so_status := %s; so_head := %s; so_proc := %s; so_idle := %s; so_ok := %s; so_samples := %s; so_samples_stable := %s |}",
+		cList(st), cZ(o.Head), cZ(o.Proc), idle, cBool(o.OK), cList(sm), cBool(o.SamplesStable))
 }
 
 func sidecarRun(in interface{}) (string, interface{}, map[string]int) {
